@@ -32,6 +32,8 @@ func c14(c *Ctx) {
 	sQuorum(c, "R2/S-QUORUM")
 	c14R3(c, "R3")
 	c06R4(c, "R4/C06.R4")
+	sDispatch(c, "R5/S-DISPATCH")
+	c16R1(c, "R5/C16.R1")
 }
 
 func c14R2(c *Ctx, rule string) {
